@@ -43,6 +43,11 @@ type Line struct {
 	Unit string `json:",omitempty"`
 	MKey string `json:",omitempty"`
 	MVal string `json:",omitempty"`
+	// Pre is an extra key=value pair written on a Unit line BEFORE the main
+	// pair. The generator only uses pairs that contradict metadata set by an
+	// earlier line, so the reader complains about this line (a positioned,
+	// non-fatal error) and must still honour the main pair after it.
+	Pre  string `json:",omitempty"`
 	Name *Name  `json:",omitempty"`
 	Its  int    `json:",omitempty"`
 	Vals []Val  `json:",omitempty"`
@@ -281,7 +286,11 @@ func (fl *File) Text() string {
 				fmt.Fprintf(&sb, "%s: %s\n", l.Key, l.Val)
 			}
 		case KUnit:
-			fmt.Fprintf(&sb, "Unit %s %s=%s\n", l.Unit, l.MKey, l.MVal)
+			if l.Pre != "" {
+				fmt.Fprintf(&sb, "Unit %s %s %s=%s\n", l.Unit, l.Pre, l.MKey, l.MVal)
+			} else {
+				fmt.Fprintf(&sb, "Unit %s %s=%s\n", l.Unit, l.MKey, l.MVal)
+			}
 		case KBench:
 			fmt.Fprintf(&sb, "Benchmark%s %d", l.Name.Full(), l.Its)
 			for _, v := range l.Vals {
@@ -334,6 +343,21 @@ func (c *Case) PathArgs(paths []string) (args, labels []string) {
 }
 
 // Content returns the lines of file i (following SameAs).
+// ConflictLines returns, per reading of a file, the 1-based numbers of the
+// Unit lines carrying a contradicting pair (Line.Pre): the reader reports one
+// positioned error for each of them every time the file is read.
+func (c *Case) ConflictLines() []int {
+	var out []int
+	for i := range c.Files {
+		for j, l := range c.Content(i) {
+			if l.K == KUnit && l.Pre != "" {
+				out = append(out, j+1)
+			}
+		}
+	}
+	return out
+}
+
 func (c *Case) Content(i int) []Line {
 	for c.Files[i].SameAs >= 0 {
 		i = c.Files[i].SameAs
